@@ -687,6 +687,8 @@ class Merge(MultiCrossBlock):
             alignment = normalize_alignment(who, alignment)
         for b in blocks:
             if b.alignment != alignment:
+                if b.alignment == AlignmentMode.EQUAL_PREAMBLE and len(b.crossings) <= 1:
+                    continue # no alignment choice was needed for this block
                 raise ValueError(who, "Blocks have different alignments.")
         mode = normalize_mode(who, mode)
 
